@@ -58,10 +58,19 @@ JudgeHTTP(e) ==
              THEN {"BackendSawHTTP"} ELSE {})
        \cup (IF ~h.hang /\ h.bcalls = 1 /\ ~h.mdok THEN {"RequestMetadataHTTP"} ELSE {})
 
+\* C18 on the proxy path: every proxied call passes the front's interceptor exactly once, and a stream interceptor that
+\* passes a wrapping stream on sees every message the backend got and every reply the client got go through it
+InterceptOK(e, v) == /\ v.icalls = 1
+                     /\ (e.s.shape # "unary" => v.irecv >= Len(v.bgot) /\ v.isend >= Len(v.replies))
+JudgeIntercept(e) ==
+  IF e.crash # "" \/ ~DirectOK(e) THEN {}
+  ELSE (IF ~e.proxied.hang /\ e.proxied.bcalls = 1 /\ ~InterceptOK(e, e.proxied) THEN {"InterceptProxied"} ELSE {})
+       \cup (IF e.hashttp /\ ~e.http.hang /\ e.http.bcalls = 1 /\ ~InterceptOK(e, e.http) THEN {"InterceptProxiedHTTP"} ELSE {})
+
 TProxy ==
   /\ l <= Len(Trace) /\ Trace[l].ev = "Proxy"
   /\ LET e == Trace[l] IN
-       /\ failed' = failed \cup {<<e.case, l, f>> : f \in Judge(e) \cup JudgeHTTP(e)}
+       /\ failed' = failed \cup {<<e.case, l, f>> : f \in Judge(e) \cup JudgeHTTP(e) \cup JudgeIntercept(e)}
        /\ stat' = [stat EXCEPT !.calls = @ + 1, !.httpCalls = @ + (IF e.hashttp THEN 1 ELSE 0), !.failing = @ + (IF Fails(e.s) THEN 1 ELSE 0),
                                !.lockstep = @ + (IF LockStep(e.s) THEN 1 ELSE 0), !.ctxCodes = @ + (IF Fails(e.s) /\ e.s.code \in {1, 4} THEN 1 ELSE 0),
                                !.streaming = @ + (IF e.s.shape # "unary" THEN 1 ELSE 0),
